@@ -259,5 +259,32 @@ for fld, ex in [("Position.StartLine", "GetLine(GetStart(ctx))"), ("Position.Sta
 row(props=["C02"], func=FL + "(JavaFullListener).EnterMethodCall", params=["s", "ctx"], kind="callarg", callee=FL + "BuildMethodCallLocation", arg=2,
     expr='GetText(call("assert:antlr.ParseTree", GetChild(ctx, 0)))', what="the callee text is the first child of the methodCall node")
 
+# ------------------------------------------------------------------ third batch (after the second round of seeded changes)
+PARAM = 'param'
+row(props=["C01", "C02"], func=FL + "BuildMethodParameters", params=["parameters"], kind="callarg", callee="pkg/domain/core_domain.NewCodeParameter", arg=0, each={"as": "param"},
+    expr="GetText(TypeType(param))", what="parameter entry: the declared type text")
+row(props=["C01", "C02"], func=FL + "BuildMethodParameters", params=["parameters"], kind="callarg", callee="pkg/domain/core_domain.NewCodeParameter", arg=1, each={"as": "param"},
+    expr="GetText(Identifier(VariableDeclaratorId(param)))", what="parameter entry: the declared identifier (not the declarator with its brackets)")
+JP = "pkg/infrastructure/jpackage."
+row(props=["C03"], func=JP + "GetClassName", params=["path"], kind="returns", expr='call("beforeLast", path, ".")',
+    what="the class of a full method name is everything before its last dot")
+row(props=["C03"], func=JP + "GetMethodName", params=["path"], kind="returns", expr='call("afterLast", path, ".")',
+    what="the method of a full method name is everything after its last dot")
+row(props=["C03"], func="pkg/application/call.(CallGraph).AnalysisByFiles", params=["c", "restApis", "deps", "diMap"], kind="returns", result=1, field="Size",
+    expr='collect(restApis, api, true, call("strings.Count", anycall("pkg/application/call.BuildCallChain"), " -> ") + 1)',
+    what="the reported size of an API's chain is its number of edges plus one")
+row(props=["C04"], func="pkg/application/rcall.(RCallGraph).BuildRCallChain", params=["c", "funcName", "methodMap"], kind="callguard", callee="pkg/application/rcall.escapeStr",
+    total=2, index=0, in_loop=True, each={"as": "child"}, expr='child != global("pkg/application/rcall.lastChild@loop1") && funcName != child',
+    what="inside the caller loop an edge line is written for every caller except the node itself (and the repeated-caller cut-off)")
+row(props=["C03"], func="pkg/application/call.BuildCallChain", params=["funcName", "methodMap", "diMap"], kind="callguard", callee="pkg/application/call.escapeStr",
+    total=2, index=0, in_loop=True, each={"as": "child"}, expr="true", what="inside the callee loop an edge line is written for every callee")
+row(props=["C10"], func="pkg/application/bs.(BadSmellApp).IdentifyBadSmell", params=["j", "nodeInfos", "ignoreRules"], kind="emits", target="mapstore:makemap1", tag={}, total=1,
+    each={"as": "ignore"}, when="true", fields={"key": "ignore", "value": "true"}, what="every name of the ignore list is switched off, whatever the name")
+EXP0 = "GetText(Expression(ctx, 0))"
+row(props=["C06"], func="pkg/application/refactor/base.(JavaRefactorListener).EnterExpression", params=["s", "ctx"], kind="callguard", any_site=True,
+    callee="pkg/application/refactor/base/models.(JFullIdentifier).AddField",
+    expr='Expression(ctx, 0) != nil && !contains(%s, ".") && call("unicode.IsUpper", %s[0])' % (EXP0, EXP0),
+    what="the left operand of every expression is recorded as a referenced name when it is a capitalised simple name (operators, method references, array access alike)")
+
 json.dump({"e5": rows}, open(os.path.join(os.path.dirname(os.path.dirname(os.path.abspath(__file__))), "spec", "e5.json"), "w"), indent=1, ensure_ascii=False)
 print(len(rows), "rows")
